@@ -101,6 +101,7 @@ func cmdVerify(args []string) int {
 	only := fs.String("func", "", "verify only this function (debug)")
 	verbose := fs.Bool("v", false, "verbose")
 	timeout := fs.Int("timeout", 0, "per-solver timeout in seconds")
+	failFast := fs.Bool("fail-fast", false, "stop racing undecided obligations once eight have failed (self-test runs)")
 	seed := fs.Int("seed", 0, "seed")
 	noEvidence := fs.Bool("no-evidence", false, "do not write the evidence file")
 	scratch := fs.Bool("scratch", false, "selftest run against a scratch copy: write SMT files and replays under a scratch directory")
@@ -128,7 +129,7 @@ func cmdVerify(args []string) int {
 	if *timeout > 0 {
 		tmo = *timeout
 	}
-	run := &Run{prop: pc, tier: *tier, seed: *seed, verif: *verif, repo: *repo, verbose: *verbose, timeout: tmo, only: *only}
+	run := &Run{prop: pc, tier: *tier, seed: *seed, verif: *verif, repo: *repo, verbose: *verbose, timeout: tmo, only: *only, failFast: *failFast}
 	if *scratch {
 		run.scratchDir = filepath.Join(*repo, ".gocv-scratch")
 	}
@@ -152,6 +153,7 @@ type Run struct {
 	repo    string
 	verbose bool
 	timeout int
+	failFast bool
 	only    string
 	wall    float64
 
@@ -357,7 +359,7 @@ func (r *Run) executeFacet(facet string) int {
 
 // finish discharges the obligations of all facets and reports.
 func (r *Run) finish(outDir string) int {
-	discharge(r.obls, solveOpts{outDir: outDir, timeoutS: r.timeout, all: r.tier == "thorough", jobs: 16, seed: r.seed})
+	discharge(r.obls, solveOpts{outDir: outDir, timeoutS: r.timeout, all: r.tier == "thorough", jobs: 16, seed: r.seed, failFast: r.failFast})
 	// results
 	for i := range r.reports {
 		n := 0
